@@ -16,6 +16,16 @@ proved equal to Model/Migration.v / Model/MigrationCommit.v in coq/Bridge/Bridge
                       gen_sq_init_migrates (the guard of SqliteStorage.__init__) and
                       gen_init_commits_after_migration
 
+  peewee_open_*    -> coq/Gen/GenPeeweeOpen.v (bridged to Model/PeeweeOpen.v in Bridge/BridgePeeweeOpen.v):
+                      what PeeweeStorage.__init__ does to the file it opens ("the legacy file is left
+                      untouched"): gen_db_pragmas (the arguments the module-level handle `_db` is created
+                      with; the two models bound to it through BaseModel.Meta), gen_init_script (the
+                      statement sequence of __init__ after the file-name head: init(filepath) / connect /
+                      create_table(safe=..) / close / auto_migrate(filepath) / update_bucket_keys, and
+                      `if <handle>.is_closed():` blocks as OIfClosed), gen_am_script (auto_migrate: open,
+                      column test, `if not has: add_column`, close), gen_table_name/_columns/_indexes
+                      (field declarations of BucketModel / EventModel)
+
 Fail-closed: anything outside the recognised shapes raises Fail, the definition is omitted and the
 bridge lemma stops compiling."""
 import ast
@@ -427,7 +437,368 @@ def tr_init(repo):
         f"Definition gen_init_commits_after_migration : bool := {'true' if commits else 'false'}.\n")
 
 
+# ---------------------------------------------------------------------------
+# PeeweeStorage.__init__ as an I/O script (Model/PeeweeOpen.v)
+
+import re
+
+HANDLE = "_db"
+DB_CLASS = "SqliteExtDatabase"
+MODEL_CLASSES = {"BucketModel": "TBucket", "EventModel": "TEvent"}
+
+
+def _fail(msg):
+    """the message ends up inside a Coq comment of the generated file: no string / comment delimiters"""
+    raise Fail(msg.replace('"', "'").replace("(*", "( *").replace("*)", "* )"))
+
+
+FIELD_CLASSES = {"IntegerField", "CharField", "DateTimeField", "DecimalField", "AutoField", "ForeignKeyField",
+                 "TextField", "FloatField", "BooleanField", "BigIntegerField"}
+
+
+def tr_open_header(repo):
+    return ("From AwVerif Require Import Model.StoreBase Model.SqliteStore Model.PeeweeStore Model.Migration "
+            "Model.PeeweeOpen.\n")
+
+
+def _pragmas(call, what):
+    """keyword arguments of a SqliteExtDatabase(..) call -> Gallina `list pragma`; only `pragmas=` is read,
+    any other keyword (autoconnect, timeout, c_extensions, ..) is outside the model"""
+    out = []
+    for kw in call.keywords:
+        if kw.arg != "pragmas":
+            _fail(f"{what}: keyword {kw.arg!r} of {DB_CLASS}(..) is not modelled")
+        v = kw.value
+        if isinstance(v, ast.Dict):
+            pairs = list(zip(v.keys, v.values))
+        elif isinstance(v, (ast.List, ast.Tuple)) and all(isinstance(e, ast.Tuple) and len(e.elts) == 2 for e in v.elts):
+            pairs = [tuple(e.elts) for e in v.elts]
+        else:
+            _fail(f"{what}: pragmas is not a literal dict / list of pairs")
+        for k, val in pairs:
+            if not (isinstance(k, ast.Constant) and isinstance(k.value, str)):
+                _fail(f"{what}: pragma name is not a str literal")
+            if not (isinstance(val, ast.Constant) and type(val.value) in (str, int, bool)):
+                _fail(f"{what}: pragma value is not a str/int literal")
+            out.append(f"({lit(k.value)}, {lit(str(val.value))})")
+    return "[" + "; ".join(out) + "]"
+
+
+def _imported_from(tree, module, name):
+    for n in tree.body:
+        if isinstance(n, ast.ImportFrom) and n.module == module and any(a.name == name and a.asname is None for a in n.names):
+            return True
+    return False
+
+
+def _names_in(node, name):
+    return [n for n in ast.walk(node) if isinstance(n, ast.Name) and n.id == name]
+
+
+def tr_open_decl(repo):
+    tree = _parse(repo, PEEWEE)
+    if not _imported_from(tree, "playhouse.sqlite_ext", DB_CLASS):
+        _fail(f"{DB_CLASS} is not imported from playhouse.sqlite_ext")
+    decl = None
+    for n in tree.body:
+        if isinstance(n, (ast.FunctionDef, ast.ClassDef, ast.Import, ast.ImportFrom)):
+            continue
+        if isinstance(n, ast.Assign) and len(n.targets) == 1 and _is_name(n.targets[0], HANDLE):
+            if decl is not None:
+                _fail(f"{HANDLE} is assigned twice at module level")
+            decl = n.value
+            continue
+        if _names_in(n, HANDLE):
+            _fail(f"module-level statement uses {HANDLE}: " + ast.unparse(n)[:70])
+    if decl is None:
+        _fail(f"module-level {HANDLE} not found")
+    if not (isinstance(decl, ast.Call) and _is_name(decl.func, DB_CLASS) and len(decl.args) == 1
+            and isinstance(decl.args[0], ast.Constant) and decl.args[0].value is None):
+        _fail(f"{HANDLE} is not created as {DB_CLASS}(None, ..): " + ast.unparse(decl)[:70])
+    pragmas = _pragmas(decl, HANDLE)
+    # both models are bound to the handle through BaseModel.Meta and declare nothing of their own
+    base = _cls(tree, "BaseModel")
+    if [ast.unparse(b) for b in base.bases] != ["Model"] or not _imported_from(tree, "peewee", "Model"):
+        _fail("BaseModel is not a peewee.Model")
+    body = [x for x in base.body if not is_skippable(x)]
+    if not (len(body) == 1 and isinstance(body[0], ast.ClassDef) and body[0].name == "Meta"
+            and [ast.unparse(x) for x in body[0].body if not is_skippable(x)] == [f"database = {HANDLE}"]):
+        _fail(f"BaseModel.Meta is not exactly `database = {HANDLE}`")
+    for cname in MODEL_CLASSES:
+        c = _cls(tree, cname)
+        if [ast.unparse(b) for b in c.bases] != ["BaseModel"]:
+            _fail(f"{cname} does not derive from BaseModel only")
+        if any(isinstance(x, ast.ClassDef) for x in c.body):
+            _fail(f"{cname} has a Meta (or other inner class) of its own")
+    return f"Definition gen_db_pragmas : list pragma := {pragmas}.\n"
+
+
+def tr_open_tables(repo):
+    tree = _parse(repo, PEEWEE)
+    names, cols, idxs = {}, {}, {}
+    for cname, tag in MODEL_CLASSES.items():
+        c = _cls(tree, cname)
+        table = re.sub(r"[^\w]+", "_", cname.lower())
+        names[tag] = table
+        cols[tag], idxs[tag] = [], []
+        for x in c.body:
+            if not (isinstance(x, ast.Assign) and len(x.targets) == 1 and isinstance(x.targets[0], ast.Name)
+                    and isinstance(x.value, ast.Call) and isinstance(x.value.func, ast.Name)):
+                if isinstance(x, (ast.Assign, ast.AnnAssign)):
+                    _fail(f"{cname}: unsupported class attribute " + ast.unparse(x)[:60])
+                continue
+            fcls = x.value.func.id
+            if fcls not in FIELD_CLASSES:
+                _fail(f"{cname}.{x.targets[0].id}: unknown field class {fcls}")
+            kws = {}
+            for kw in x.value.keywords:
+                if kw.arg in ("column_name", "db_column", "constraints", "index_type"):
+                    _fail(f"{cname}.{x.targets[0].id}: keyword {kw.arg} is not modelled")
+                if kw.arg in ("unique", "index", "primary_key"):
+                    if not (isinstance(kw.value, ast.Constant) and type(kw.value.value) is bool):
+                        _fail(f"{cname}.{x.targets[0].id}: {kw.arg} is not a bool literal")
+                    kws[kw.arg] = kw.value.value
+            col = x.targets[0].id + ("_id" if fcls == "ForeignKeyField" else "")
+            cols[tag].append(col)
+            pk = kws.get("primary_key", False) or fcls == "AutoField"
+            indexed = kws.get("unique", False) or kws.get("index", fcls == "ForeignKeyField")
+            if indexed and not pk:
+                iname = f"{table}_{col}"
+                if len(iname) > 64:
+                    _fail("index name longer than 64 characters (peewee hashes it)")
+                idxs[tag].append(iname)
+
+    def fn(name, ty, d, f):
+        return (f"Definition {name} (t : mtable) : {ty} :=\n  match t with\n"
+                + "".join(f"  | {tag} => {f(d[tag])}\n" for tag in ("TBucket", "TEvent")) + "  end.\n")
+    lst = lambda l: "[" + "; ".join(lit(x) for x in l) + "]"
+    return (fn("gen_table_name", "name", names, lit) + fn("gen_table_columns", "list name", cols, lst)
+            + fn("gen_table_indexes", "list name", idxs, lst))
+
+
+def _is_handle(e, handles):
+    return ast.unparse(e) in handles
+
+
+def _refresh_ok(cls):
+    """update_bucket_keys reads the bucket table through the bound model and nothing else"""
+    m = _method(cls, "update_bucket_keys")
+    body = [x for x in m.body if not is_skippable(x)]
+    src = None
+    if len(body) == 2 and isinstance(body[0], ast.Assign) and len(body[0].targets) == 1 \
+            and isinstance(body[0].targets[0], ast.Name) and ast.unparse(body[0].value) == "BucketModel.select()":
+        src = body[0].targets[0].id
+        body = body[1:]
+    if len(body) != 1:
+        return False
+    a = body[0]
+    if isinstance(a, ast.AnnAssign):
+        tgt, val = a.target, a.value
+    elif isinstance(a, ast.Assign) and len(a.targets) == 1:
+        tgt, val = a.targets[0], a.value
+    else:
+        return False
+    if ast.unparse(tgt) != "self.bucket_keys" or not isinstance(val, ast.DictComp) or len(val.generators) != 1:
+        return False
+    g = val.generators[0]
+    if g.ifs or g.is_async or not isinstance(g.target, ast.Name):
+        return False
+    v = g.target.id
+    if ast.unparse(val.key) != f"{v}.id" or ast.unparse(val.value) != f"{v}.key":
+        return False
+    return (src is not None and _is_name(g.iter, src)) or (src is None and ast.unparse(g.iter) == "BucketModel.select()")
+
+
+def tr_open_init(repo):
+    tree = _parse(repo, PEEWEE)
+    cls = _cls(tree, "PeeweeStorage")
+    init = _method(cls, "__init__")
+    if [a.arg for a in init.args.args] != ["self", "testing", "filepath"] or \
+            [ast.unparse(d) for d in init.args.defaults] != ["True", "None"] or init.args.vararg or init.args.kwarg \
+            or init.args.kwonlyargs:
+        _fail("PeeweeStorage.__init__ signature changed")
+    body = [x for x in init.body if not is_skippable(x)]
+    # head: the requested file
+    if len(body) < 2 or ast.unparse(body[0]) != "data_dir = get_data_dir('aw-server')":
+        _fail("__init__ does not start with data_dir = get_data_dir('aw-server')")
+    head = body[1]
+    if not (isinstance(head, ast.If) and ast.unparse(head.test) == "not filepath" and not head.orelse):
+        _fail("second statement is not `if not filepath:`")
+    hb = [x for x in head.body if not is_skippable(x)]
+    if not (len(hb) == 2 and isinstance(hb[0], ast.Assign) and _is_name(hb[0].targets[0], "filename")
+            and ast.unparse(hb[1]) == "filepath = os.path.join(data_dir, filename)"):
+        _fail("default path is not filepath = os.path.join(data_dir, filename)")
+    handles = {HANDLE}
+
+    def steps(stmts_, depth):
+        out = []
+        for x in stmts_:
+            if is_skippable(x):
+                continue
+            text = ast.unparse(x)
+            # bindings that are not statements of the script
+            if isinstance(x, ast.Assign) and len(x.targets) == 1 and ast.unparse(x.targets[0]) == "self.db":
+                if not _is_name(x.value, HANDLE):
+                    _fail("self.db is not the module-level handle: " + text[:70])
+                handles.add("self.db")
+                continue
+            if isinstance(x, (ast.Assign, ast.AnnAssign)):
+                tgt = x.target if isinstance(x, ast.AnnAssign) else (x.targets[0] if len(x.targets) == 1 else None)
+                if tgt is not None and ast.unparse(tgt) == "self.bucket_keys" and x.value is not None \
+                        and ast.unparse(x.value) == "{}":
+                    continue
+                _fail("unsupported assignment in __init__: " + text[:70])
+            if isinstance(x, ast.If):
+                t = x.test
+                if (depth == 0 and not x.orelse and isinstance(t, ast.Call) and isinstance(t.func, ast.Attribute)
+                        and t.func.attr == "is_closed" and _is_handle(t.func.value, handles)
+                        and not t.args and not t.keywords):
+                    out.append("OIfClosed [" + "; ".join(steps(x.body, depth + 1)) + "]")
+                    continue
+                _fail("unsupported conditional in __init__: " + ast.unparse(t)[:70])
+            if not (isinstance(x, ast.Expr) and isinstance(x.value, ast.Call)):
+                _fail("unsupported statement in __init__: " + text[:70])
+            c = x.value
+            fn = c.func
+            if _is_name(fn, "auto_migrate"):
+                if c.keywords or len(c.args) != 1 or not _is_name(c.args[0], "filepath"):
+                    _fail("auto_migrate is not called as (filepath): " + text[:70])
+                out.append("OAutoMigrate")
+                continue
+            if not isinstance(fn, ast.Attribute):
+                _fail("unsupported call in __init__: " + text[:70])
+            recv, meth = fn.value, fn.attr
+            if _is_handle(recv, handles):
+                if meth == "init":
+                    if c.keywords or len(c.args) != 1 or not _is_name(c.args[0], "filepath"):
+                        _fail("the handle is not initialised as init(filepath): " + text[:70])
+                    out.append("OInit")
+                elif meth in ("connect", "close"):
+                    if c.args or c.keywords:
+                        _fail(f"{meth} is called with arguments: " + text[:70])
+                    out.append("OConnect" if meth == "connect" else "OClose")
+                elif meth == "create_tables":
+                    safe = _safe_kw(c, 1, text)
+                    if not (isinstance(c.args[0], (ast.List, ast.Tuple))
+                            and [ast.unparse(e) for e in c.args[0].elts] == list(MODEL_CLASSES)):
+                        _fail("create_tables is not given [BucketModel, EventModel]: " + text[:70])
+                    out.extend(f"OCreateTable {MODEL_CLASSES[m]} {safe}" for m in MODEL_CLASSES)
+                else:
+                    _fail(f"handle method {meth} is not modelled: " + text[:70])
+                continue
+            if isinstance(recv, ast.Name) and recv.id in MODEL_CLASSES and meth == "create_table":
+                out.append(f"OCreateTable {MODEL_CLASSES[recv.id]} {_safe_kw(c, 0, text)}")
+                continue
+            if text == "self.update_bucket_keys()":
+                if not _refresh_ok(cls):
+                    _fail("update_bucket_keys is not {b.id: b.key for b in BucketModel.select()}")
+                out.append("ORefreshKeys")
+                continue
+            _fail("unsupported call in __init__: " + text[:70])
+        return out
+
+    script = steps(body[2:], 0)
+    return "Definition gen_init_script : list ostep :=\n  [" + ";\n   ".join(script) + "].\n"
+
+
+def _safe_kw(c, nargs, text):
+    if len(c.args) != nargs:
+        _fail("unexpected positional arguments: " + text[:70])
+    safe = "true"                       # peewee: create_table(safe=True, ..)
+    for kw in c.keywords:
+        if kw.arg != "safe" or not (isinstance(kw.value, ast.Constant) and type(kw.value.value) is bool):
+            _fail("create_table keyword other than safe=<bool>: " + text[:70])
+        safe = "true" if kw.value.value else "false"
+    return safe
+
+
+def tr_open_auto_migrate(repo):
+    tree = _parse(repo, PEEWEE)
+    fn = find_function(tree, "auto_migrate")
+    if [a.arg for a in fn.args.args] != ["path"] or fn.args.defaults or fn.args.vararg or fn.args.kwarg:
+        _fail("auto_migrate signature changed")
+    if not (_imported_from(tree, "playhouse.migrate", "SqliteMigrator") and _imported_from(tree, "playhouse.migrate", "migrate")):
+        _fail("SqliteMigrator / migrate are not imported from playhouse.migrate")
+    body = [x for x in fn.body if not is_skippable(x)]
+    out = []
+    db = migrator = info = None
+    flags = {}
+    i = 0
+    while i < len(body):
+        x = body[i]
+        text = ast.unparse(x)
+        if isinstance(x, ast.Assign) and len(x.targets) == 1 and isinstance(x.targets[0], ast.Name):
+            tgt, v = x.targets[0].id, x.value
+            if isinstance(v, ast.Call) and _is_name(v.func, DB_CLASS):
+                if db is not None or len(v.args) != 1 or not _is_name(v.args[0], "path"):
+                    _fail("auto_migrate does not open exactly one database on `path`: " + text[:70])
+                db = tgt
+                out.append(f"AOpen {_pragmas(v, 'auto_migrate')}")
+            elif isinstance(v, ast.Call) and _is_name(v.func, "SqliteMigrator"):
+                if db is None or v.keywords or len(v.args) != 1 or not _is_name(v.args[0], db):
+                    _fail("migrator is not SqliteMigrator(<the database opened on path>)")
+                migrator = tgt
+            elif db and _call(v, db, "execute_sql"):
+                if v.keywords or len(v.args) != 1 or not (isinstance(v.args[0], ast.Constant) and isinstance(v.args[0].value, str)):
+                    _fail("execute_sql is not given one str literal: " + text[:70])
+                m = re.fullmatch(r"PRAGMA table_info\((\w+)\)", v.args[0].value.strip())
+                if not m:
+                    _fail("auto_migrate executes SQL other than PRAGMA table_info(<table>): " + v.args[0].value[:60])
+                info = (tgt, m.group(1))
+            elif isinstance(v, ast.Call) and _is_name(v.func, "any") and info and len(v.args) == 1 and not v.keywords \
+                    and isinstance(v.args[0], ast.GeneratorExp) and len(v.args[0].generators) == 1:
+                g = v.args[0].generators[0]
+                e = v.args[0].elt
+                if not (isinstance(g.target, ast.Name) and _is_name(g.iter, info[0]) and not g.ifs and not g.is_async
+                        and isinstance(e, ast.Compare) and len(e.ops) == 1 and isinstance(e.ops[0], ast.Eq)
+                        and ast.unparse(e.left) == f"{g.target.id}[1]" and isinstance(e.comparators[0], ast.Constant)
+                        and isinstance(e.comparators[0].value, str)):
+                    _fail("column test is not any(row[1] == \"<column>\" for row in <table_info rows>): " + text[:80])
+                flags[tgt] = (info[1], e.comparators[0].value)
+                out.append(f"AHasColumn {lit(info[1])} {lit(e.comparators[0].value)}")
+            else:
+                _fail("unsupported assignment in auto_migrate: " + text[:70])
+        elif isinstance(x, ast.If):
+            t = x.test
+            if not (isinstance(t, ast.UnaryOp) and isinstance(t.op, ast.Not) and isinstance(t.operand, ast.Name)
+                    and t.operand.id in flags):
+                _fail("conditional in auto_migrate is not `if not <column flag>`: " + ast.unparse(t)[:60])
+            if x.orelse:
+                _fail("`if not <column flag>` has an else branch: " + ast.unparse(x.orelse[0])[:70])
+            if list(flags)[-1] != t.operand.id:
+                _fail("the conditional does not test the flag computed last")
+            inner = [y for y in x.body if not is_skippable(y)]
+            field = None
+            if inner and isinstance(inner[0], ast.Assign) and len(inner[0].targets) == 1 and isinstance(inner[0].targets[0], ast.Name) \
+                    and isinstance(inner[0].value, ast.Call) and isinstance(inner[0].value.func, ast.Name) \
+                    and inner[0].value.func.id in FIELD_CLASSES:
+                field = inner[0].targets[0].id
+                inner = inner[1:]
+            if len(inner) == 1 and isinstance(inner[0], ast.With) and len(inner[0].items) == 1 \
+                    and inner[0].items[0].optional_vars is None and db \
+                    and ast.unparse(inner[0].items[0].context_expr) == f"{db}.atomic()":
+                inner = [y for y in inner[0].body if not is_skippable(y)]
+            if not (len(inner) == 1 and isinstance(inner[0], ast.Expr) and isinstance(inner[0].value, ast.Call)
+                    and _is_name(inner[0].value.func, "migrate") and len(inner[0].value.args) == 1
+                    and not inner[0].value.keywords and migrator and _call(inner[0].value.args[0], migrator, "add_column")):
+                _fail("body of the conditional is not migrate(<migrator>.add_column(..)): " + ast.unparse(x.body[-1])[:70])
+            a = inner[0].value.args[0]
+            if a.keywords or len(a.args) != 3 or not all(isinstance(z, ast.Constant) and isinstance(z.value, str) for z in a.args[:2]) \
+                    or not (field and _is_name(a.args[2], field)):
+                _fail("add_column is not called as (\"<table>\", \"<column>\", <field>): " + ast.unparse(a)[:70])
+            out.append(f"AIfNotHasAddColumn {lit(a.args[0].value)} {lit(a.args[1].value)}")
+        elif db and isinstance(x, ast.Expr) and _call(x.value, db, "close") and not x.value.args and not x.value.keywords:
+            out.append("AClose")
+        else:
+            _fail("unsupported statement in auto_migrate: " + text[:70])
+        i += 1
+    return "Definition gen_am_script : list amstep :=\n  [" + ";\n   ".join(out) + "].\n"
+
+
 KERNELS = {
     "GenMigration": [("migration_header", tr_header), ("migration_loop", tr_loop), ("migration_names", tr_names),
                      ("migration_init", tr_init)],
+    "GenPeeweeOpen": [("peewee_open_header", tr_open_header), ("peewee_open_decl", tr_open_decl),
+                      ("peewee_open_tables", tr_open_tables), ("peewee_open_init", tr_open_init),
+                      ("peewee_open_auto_migrate", tr_open_auto_migrate)],
 }
